@@ -82,7 +82,7 @@ def mutate(pk, rng, how):
         return L.repack(pk, members={'Extra/data.bin': bytes(rng.randrange(256) for _ in range(50)), 'Configurations2/verif.xml': b'<a xmlns="urn:x"/>',
                                      'META-INF/documentsignatures.xml': b'<s xmlns="urn:sig"/>', 'META-INF/macrosignatures.xml': b'<m xmlns="urn:sig"/>',
                                      'META-INF/verif-notes.txt': b'notes', 'Extra/empty.bin': b'', 'mimetype.bak': b'x',
-                                     'Object 977/content.xml': b'<a xmlns="urn:x">kept as it is</a>', 'Object 978/Versions/content.xml': b'<v xmlns="urn:x"/>', 'Object 978/Versions/settings.xml': b'<s xmlns="urn:x"/>'}, manifest=man)
+                                     'Object 977/content.xml': b'<a xmlns="urn:x">kept as it is</a>', 'Object 978/Versions/content.xml': P.content_xml('<text:p>an older version, kept as a file</text:p>').encode('utf-8'), 'Object 978/Versions/settings.xml': b'<s xmlns="urn:x"/>'}, manifest=man)
     if how == 'renumber-objects':
         folders = [f for f in L.folders_of(pk) if f]
         if not folders: return None
